@@ -1,6 +1,8 @@
 package c14
 
 import (
+	"bufio"
+	"bytes"
 	"fmt"
 
 	"github.com/tuneinsight/lattigo/v6/core/rlwe"
@@ -113,17 +115,17 @@ func runEVK(c *eng.Ctx, cf cfg, gal bool) {
 	}) {
 		return
 	}
-	alloc := func(i int, evp rlwe.EvaluationKeyParameters) gshare {
+	alloc := func(i int, evp ...rlwe.EvaluationKeyParameters) gshare {
 		if gal {
-			return gp[i].AllocateShare(evp)
+			return gp[i].AllocateShare(evp...)
 		}
-		return gshare{EvaluationKeyGenShare: ep[i].AllocateShare(evp)}
+		return gshare{EvaluationKeyGenShare: ep[i].AllocateShare(evp...)}
 	}
-	sampleCRP := func(i int, crs multiparty.CRS, evp rlwe.EvaluationKeyParameters) multiparty.GaloisKeyGenCRP {
+	sampleCRP := func(i int, crs multiparty.CRS, evp ...rlwe.EvaluationKeyParameters) multiparty.GaloisKeyGenCRP {
 		if gal {
-			return gp[i].SampleCRP(crs, evp)
+			return gp[i].SampleCRP(crs, evp...)
 		}
-		return multiparty.GaloisKeyGenCRP{EvaluationKeyGenCRP: ep[i].SampleCRP(crs, evp)}
+		return multiparty.GaloisKeyGenCRP{EvaluationKeyGenCRP: ep[i].SampleCRP(crs, evp...)}
 	}
 	genShare := func(i int, g uint64, crp multiparty.GaloisKeyGenCRP, sh *gshare) error {
 		if gal {
@@ -153,8 +155,14 @@ func runEVK(c *eng.Ctx, cf cfg, gal bool) {
 		ntrials = 3
 	}
 	for trial := 0; trial < ntrials; trial++ {
-		lq, lp, w := e.drawEvkParams(trial)
-		evp := rlwe.EvaluationKeyParameters{LevelQ: &lq, LevelP: &lp, BaseTwoDecomposition: &w}
+		lq, lp, w := 0, 0, 0
+		var evp []rlwe.EvaluationKeyParameters // what the API receives (ext cases: possibly nothing / nil fields)
+		if cf.Ext {
+			lq, lp, w, evp = e.drawEvkParamsExt(trial)
+		} else {
+			lq, lp, w = e.drawEvkParams(trial)
+			evp = []rlwe.EvaluationKeyParameters{{LevelQ: &lq, LevelP: &lp, BaseTwoDecomposition: &w}}
+		}
 		nrows := params.BaseRNSDecompositionVectorSize(lq, lp)
 		digits := params.BaseTwoDecompositionVectorSize(lq, lp, w)[:nrows]
 		uneq := digitsUnequal(digits)
@@ -178,7 +186,7 @@ func runEVK(c *eng.Ctx, cf cfg, gal bool) {
 				crs := e.newCRS()
 				e.warmUp(crs, script, &reads[i])
 				for range galEls {
-					crp := sampleCRP(i, crs, evp)
+					crp := sampleCRP(i, crs, evp...)
 					crps[i] = append(crps[i], crp)
 					reads[i].addMat(params, crp.Value)
 				}
@@ -192,11 +200,27 @@ func runEVK(c *eng.Ctx, cf cfg, gal bool) {
 		}
 		e.checkCRP(P, rr, reads[0].mods)
 		c.Try("C14|"+P+".SampleCRP", func() {
-			o := sampleCRP(0, e.otherCRS(), evp)
+			o := sampleCRP(0, e.otherCRS(), evp...)
 			c.Check(!eqRows(matRows(o.Value), matRows(crps[0][0].Value), nil), "C14|"+P+".SampleCRP|crs-content-ignored", nil)
 		})
 		if len(galEls) > 1 {
 			c.Check(!eqRows(matRows(crps[0][0].Value), matRows(crps[0][1].Value), nil), "C14|"+P+".SampleCRP|same-crp-twice", nil)
+		}
+		if cf.Ext {
+			// a party that rewinds its CRS (KeyedPRNG.Reset) and replays the call sequence obtains the same polynomials
+			c.Try("C14|"+P+".SampleCRP", func() {
+				crs := e.newCRS()
+				var rd [2]crpRead
+				for k := range rd {
+					e.warmUp(crs, script, &rd[k])
+					for range galEls {
+						rd[k].addMat(params, sampleCRP(0, crs, evp...).Value)
+					}
+					crs.Reset()
+				}
+				c.Count("crs_rewinds", 1)
+				c.Check(eqRows(rd[0].rows, rd[1].rows, nil) && eqRows(rd[0].rows, reads[0].rows, nil), "C14|"+P+".SampleCRP|crs-rewind-does-not-replay", nil)
+			})
 		}
 
 		// share buffers are allocated once per trial and reused (still holding the previous share) for the
@@ -208,7 +232,15 @@ func runEVK(c *eng.Ctx, cf cfg, gal bool) {
 			panicked, pv := eng.Panics(func() {
 				for i := 0; i < e.np && gerr == nil; i++ {
 					if gi == 0 || i%3 == 2 {
-						shares[i] = alloc(i, evp)
+						shares[i] = alloc(i, evp...)
+						if cf.Ext && i%2 == 1 {
+							// a receiver that held something else before: GenShare must overwrite it
+							e.junkGadget(&shares[i].GadgetCiphertext)
+							if gal {
+								shares[i].GaloisElement = 0xdead
+							}
+							c.Count("share_buffers_dirty", 1)
+						}
 					} else {
 						c.Count("share_buffers_reused", 1)
 					}
@@ -250,30 +282,89 @@ func runEVK(c *eng.Ctx, cf cfg, gal bool) {
 					c.Count("shares_serialised", 1)
 					c.Count("serialised_bytes", int64(len(b)))
 					c.Check(len(b) == size && eqRows(shareRows(back), shareRows(shares[i]), nil) && back.GaloisElement == shares[i].GaloisElement && back.BaseTwoDecomposition == w,
-						"C14|"+S+".UnmarshalBinary|share-changed-by-serialisation", nil)
+						"C14|"+S+".UnmarshalBinary|share-changed-by-serialisation", func() string {
+							return fmt.Sprintf("%s: len=%d BinarySize=%d rows-equal=%v galEl %d/%d BaseTwo %d/%d", desc, len(b), size, eqRows(shareRows(back), shareRows(shares[i]), nil), back.GaloisElement, shares[i].GaloisElement, back.BaseTwoDecomposition, w)
+						})
 				}
 			})
 			if !serOK {
 				break
 			}
+			// ext: the shares also travel through the io.WriterTo / io.ReaderFrom interfaces (alone through plain
+			// io.Writer / io.Reader, and back to back with the other parties' shares through one buffered stream)
+			var stream []byte
+			var off []int
+			if cf.Ext {
+				same := func(a, b gshare) bool {
+					return eqRows(shareRows(a), shareRows(b), nil) && a.GaloisElement == b.GaloisElement && a.BaseTwoDecomposition == b.BaseTwoDecomposition
+				}
+				var wok bool
+				if gal {
+					stream, off, wok = wireTrip[gshare](c, S, shares, blobs, same)
+				} else {
+					es := make([]multiparty.EvaluationKeyGenShare, len(shares))
+					for i := range shares {
+						es[i] = shares[i].EvaluationKeyGenShare
+					}
+					stream, off, wok = wireTrip[multiparty.EvaluationKeyGenShare](c, S, es, blobs, func(a, b multiparty.EvaluationKeyGenShare) bool {
+						return same(gshare{EvaluationKeyGenShare: a}, gshare{EvaluationKeyGenShare: b})
+					})
+				}
+				if !wok {
+					break
+				}
+			}
+			fromStream := func(i int, s *gshare) error {
+				rd := bufio.NewReader(bytes.NewReader(stream[off[i]:]))
+				var err error
+				if gal {
+					_, err = s.ReadFrom(rd)
+				} else {
+					_, err = s.EvaluationKeyGenShare.ReadFrom(rd)
+				}
+				return err
+			}
 			o := &ops[gshare]{proto: P, key: kp + fmt.Sprintf("/g%d", g), n: e.np, mods: gadgetMods(params, &shares[0].GadgetCiphertext),
 				leaf: func(i int, ser bool) gshare {
+					if ser && cf.Ext {
+						// receive buffer: zero value / right shape / allocated for other evaluation-key parameters (and dirty)
+						var s gshare
+						switch rnd.N(3) {
+						case 1:
+							s = alloc(0, evp...)
+						case 2:
+							s = alloc(0, e.otherEvp())
+							e.junkGadget(&s.GadgetCiphertext)
+							c.Count("receive_buffers_of_other_shape", 1)
+						}
+						var err error
+						if rnd.Bool() {
+							err = unmarshal(&s, blobs[i])
+						} else {
+							c.Count("leaves_from_common_stream", 1)
+							err = fromStream(i, &s)
+						}
+						if err != nil {
+							panic(err)
+						}
+						return s
+					}
 					if ser {
 						var s gshare
 						if rnd.Bool() {
-							s = alloc(0, evp)
+							s = alloc(0, evp...)
 						}
 						if err := unmarshal(&s, blobs[i]); err != nil {
 							panic(err)
 						}
 						return s
 					}
-					s := alloc(0, evp)
+					s := alloc(0, evp...)
 					copyRows(shareRows(s), shareRows(shares[i]))
 					s.GaloisElement = shares[i].GaloisElement
 					return s
 				},
-				alloc: func() gshare { return alloc(rnd.N(e.np), evp) },
+				alloc: func() gshare { return alloc(rnd.N(e.np), evp...) },
 				add: func(a, b gshare, out *gshare) error {
 					k := rnd.N(e.np)
 					if gal {
@@ -292,7 +383,7 @@ func runEVK(c *eng.Ctx, cf cfg, gal bool) {
 			}
 
 			// ---- harness-side finalisation: (aggregate, crp) as a gadget key
-			want := rlwe.NewEvaluationKey(params, evp)
+			want := rlwe.NewEvaluationKey(params, evp...)
 			crp0 := crps[0][gi].Value
 			shapeOK := len(want.Value) == len(agg.Value) && len(crp0) == len(agg.Value)
 			for i := 0; shapeOK && i < len(want.Value); i++ {
@@ -334,11 +425,11 @@ func runEVK(c *eng.Ctx, cf cfg, gal bool) {
 			crpFin := crps[rnd.N(e.np)][gi]
 			panicked, pv = eng.Panics(func() {
 				if gal {
-					gk = rlwe.NewGaloisKey(params, evp)
+					gk = rlwe.NewGaloisKey(params, evp...)
 					ferr = gp[rnd.N(e.np)].GenGaloisKey(agg, crpFin, gk)
 					evk = &gk.EvaluationKey
 				} else {
-					evk = rlwe.NewEvaluationKey(params, evp)
+					evk = rlwe.NewEvaluationKey(params, evp...)
 					ferr = ep[rnd.N(e.np)].GenEvaluationKey(agg.EvaluationKeyGenShare, crpFin.EvaluationKeyGenCRP, evk)
 				}
 			})
@@ -362,6 +453,28 @@ func runEVK(c *eng.Ctx, cf cfg, gal bool) {
 			} else if gal {
 				c.Check(gk.GaloisElement == g && gk.NthRoot == nth, "C14|"+P+"."+fin+"|metadata", func() string {
 					return fmt.Sprintf("GaloisElement=%d want %d NthRoot=%d want %d", gk.GaloisElement, g, gk.NthRoot, nth)
+				})
+			}
+			if good && cf.Ext {
+				// a key object that held another key before must end up identical to the fresh one
+				c.Try("C14|"+P+"."+fin, func() {
+					var err error
+					var got *rlwe.EvaluationKey
+					meta := true
+					if gal {
+						gk2 := rlwe.NewGaloisKey(params, evp...)
+						e.junkGadget(&gk2.GadgetCiphertext)
+						gk2.GaloisElement, gk2.NthRoot = g+2, 7
+						err = gp[rnd.N(e.np)].GenGaloisKey(agg, crpFin, gk2)
+						got, meta = &gk2.EvaluationKey, gk2.GaloisElement == g && gk2.NthRoot == nth
+					} else {
+						got = rlwe.NewEvaluationKey(params, evp...)
+						e.junkGadget(&got.GadgetCiphertext)
+						err = ep[rnd.N(e.np)].GenEvaluationKey(agg.EvaluationKeyGenShare, crpFin.EvaluationKeyGenCRP, got)
+					}
+					c.Count("finalisations_into_used_key", 1)
+					c.Check(err == nil && meta && got.BaseTwoDecomposition == w && eqRows(gadgetRows(&got.GadgetCiphertext), gadgetRows(&evk.GadgetCiphertext), nil),
+						"C14|"+P+"."+fin+"|result-depends-on-receiver-history", func() string { return fmt.Sprintf("err=%v; %s", err, desc) })
 				})
 			}
 
